@@ -28,6 +28,11 @@ CHECKS = {
   "Every reachable state (cap 6 quick / 7 thorough) of two DOMs whose instances carry UniqueId tokens from {none,u1,u2,nil}; after every transition uniqueness, preservation-unless-collision and freshness are checked and the private bookkeeping set is probed with every token.",
   "Token alphabet of 3 ids + generated ids; builders with pairwise distinct tokens; overlapping clone_multiple excluded in this mode (entry order would matter).",
   "5/C12"),
+ "C18": ("sched", "model_checking",
+  "stateless DFS over all thread interleavings (iterated preemption bounding, unbounded for 2 threads) of the real SharedString code under a deterministic baton scheduler with cfg-hook yield points",
+  "Every schedule of 2 threads x programs of <=2 (quick) / <=3 (thorough) new/clone/drop operations over two colliding contents, with 0-1 pre-existing shared handle, unbounded preemptions; 3-thread configurations under a preemption bound. At every consistent cut: live handles with equal contents share one buffer; per handle: bytes, ==, Hash; no panic/deadlock; intern table empty once everything is dropped.",
+  "Granularity = intern-table critical sections + operation boundaries (the window between Arc::into_inner and the clean-up lock is a scheduling point); std Arc/Mutex internals trusted; no weak-memory modelling.",
+  "5/C18"),
 }
 
 NOT_YET = {
@@ -73,6 +78,8 @@ def main():
         "engines": [
             {"name": "domx", "path": "harness/src/domx.rs", "serves_properties": ["C09", "C10", "C11", "C12"],
              "kind_free_text": "explicit-state BFS whose transition function calls the real WeakDom methods; reference model in lock-step (harness/src/dommodel.rs)"},
+            {"name": "sched", "path": "harness/src/sched.rs", "serves_properties": ["C18", "C12"],
+             "kind_free_text": "deterministic baton scheduler over real OS threads; stateless DFS over choice vectors with iterated preemption bound; yield points injected by cfg(rbx_dom_verif) shims in rbx_types"},
         ],
         "checks": checks,
         "not_applicable": na,
